@@ -9,7 +9,10 @@
         section := <bom 0|1> trivs trivs <pkg> <n> (trivs decl)^n trivs
         trivs   := <n> ((s|l|b) <hex>)^n
         decl    := 1 trivs spec | g trivs <n> (trivs spec)^n trivs
-        spec    := (n | d | i <hex>) trivs (r <hex> | q <n> ((p|e) <hex1>)^n) *)
+        spec    := (n | d | i <hex>) trivs (r <hex> | q <n> ((p|e) <hex1>)^n)
+     uq <literal>             -> ok <hex> | err                                        (unquote)
+     sd|sf <ntags> <tag>* <nfiles> (<name> <regular 0|1> <data>)*
+                              -> S ok <n> <import>* <m> <testimport>* | S nogo | S readerr | PANIC   (scan_dir | scan_files) *)
 exception Bad
 let parse_section (toks : string list) : isection =
   let rest = ref toks in
@@ -71,6 +74,23 @@ let () = serve (function
   | "mt" :: o :: tags -> string_of_bool (match_tags (bytes_of_hex o) (tagset tags))
   | ["ri"; r; x] -> show_result (read_imports (r = "1") (bytes_of_hex x))
   | ["rc"; x] -> show_result (read_comments (bytes_of_hex x))
+  | ["uq"; x] -> (match unquote (bytes_of_hex x) with Some b -> "ok " ^ hex_of_bytes b | None -> "err")
+  | ("sd" | "sf" as fn) :: nt :: more ->
+      (try
+        let nt = int_of_string nt in
+        let rec take n l = if n = 0 then ([], l) else match l with x :: r -> let (a, b) = take (n - 1) r in (x :: a, b) | [] -> raise Bad in
+        let (tags, more) = take nt more in
+        let (nf, more) = match more with n :: r -> (int_of_string n, r) | [] -> raise Bad in
+        let rec files n l = if n = 0 then (if l = [] then [] else raise Bad) else match l with
+          | name :: reg :: data :: r -> { e_name = bytes_of_hex name; e_regular = (reg = "1"); e_data = bytes_of_hex data } :: files (n - 1) r
+          | _ -> raise Bad in
+        let fs = files nf more in
+        let res = if fn = "sd" then scan_dir (tagset tags) fs else scan_files (tagset tags) fs in
+        (match res with
+         | SOk (a, b) -> String.concat " " (["S"; "ok"; string_of_int (List.length a)] @ List.map hex_of_bytes a
+                                            @ [string_of_int (List.length b)] @ List.map hex_of_bytes b)
+         | SErrNoGo -> "S nogo" | SErrRead -> "S readerr" | SPanic -> "PANIC")
+      with Bad | Failure _ -> "BAD-SCAN")
   | "g" :: rest :: toks ->
       (try
         let g = parse_section toks in
